@@ -7,8 +7,8 @@ PROP = dict(
                "cache flushes and Close+Open; after generated subsets of steps every read (bit, row twice, row lists with filters, forEachBit, value, "
                "range/sum/min/max, min/max row) must equal a map model, and every write's changed flag must equal the model's. "
                "Exploration, not proof: held on every history generated.",
-    level_note="Trusted: Go toolchain, rapid, the map model in harness/pkg/_root/gfrag_machine_test.go. Universe is 9 rows x 8 columns in 3 containers "
-               "per row, one shard per case; the queued snapshot runs only at operation boundaries (operations hold the fragment lock, so these are the "
+    level_note="Trusted: Go toolchain, rapid, the map model in harness/pkg/_root/gfrag_machine_test.go. Universe is 9 rows x 14 columns in 3 containers "
+               "per row (11 of them in one container, so containers outgrow the 5 values roaring keeps inline and become mmap-backed after a reopen), one shard per case; the queued snapshot runs only at operation boundaries (operations hold the fragment lock, so these are the "
                "schedules the real worker can produce, except inside multi-lock reads such as sum).",
     rule="rapid-generated histories of 1-30 (thorough 45) operations on a set/mutex/bool/int fragment with cache ranked|lru|none, cache size 2|3|50000, "
          "MaxOpN 2|5|12|40|10000, synchronous or queued snapshots, shard 0|1|5; distinct = hash of configuration and operation history; "
@@ -20,10 +20,10 @@ PROP = dict(
                  "int fragments are compared at the value level (value, exists row, range, sum, min, max), not at the raw bit level"],
     tags=["gfrag", "gfapi"],
     units=[
-        U("fragset", ".", "^TestVerifC07_FragSet$", 900, 14000, sq=5, sth=14, timeout={"quick": 240, "thorough": 1500}),
-        U("fragmutex", ".", "^TestVerifC07_FragMutexBool$", 600, 8000, sq=3, sth=14, timeout={"quick": 240, "thorough": 1500}),
-        U("fragbsi", ".", "^TestVerifC07_FragBSI$", 600, 8000, sq=3, sth=14, timeout={"quick": 240, "thorough": 1500}),
-        U("fieldint", ".", "^TestVerifC07_FieldInt$", 400, 5000, sq=2, sth=8, timeout={"quick": 240, "thorough": 1500}),
-        U("api", "./server", "^TestVerifC07_API$", 160, 1500, sq=3, sth=10, timeout={"quick": 300, "thorough": 1800}),
+        U("fragset", ".", "^TestVerifC07_FragSet$", 900, 14000, sq=5, sth=14, timeout={"quick": 900, "thorough": 2400}),
+        U("fragmutex", ".", "^TestVerifC07_FragMutexBool$", 600, 8000, sq=3, sth=14, timeout={"quick": 900, "thorough": 2400}),
+        U("fragbsi", ".", "^TestVerifC07_FragBSI$", 600, 8000, sq=3, sth=14, timeout={"quick": 900, "thorough": 2400}),
+        U("fieldint", ".", "^TestVerifC07_FieldInt$", 400, 5000, sq=2, sth=8, timeout={"quick": 900, "thorough": 2400}),
+        U("api", "./server", "^TestVerifC07_API$", 160, 1500, sq=3, sth=10, timeout={"quick": 900, "thorough": 2400}),
     ],
 )
